@@ -237,6 +237,8 @@ impl<'a> GenericDataEncoder<'a> {
             self.enabled_modes,
         )
         .ok_or(DataEncodingError::TooMuchOrIllegalData)?;
+        #[cfg(datamatrix_verif)]
+        crate::verif_hooks::plan_hook(&mut self.planned_switches);
 
         let mut no_write_run = 0;
         while self.has_more_characters() {
